@@ -17,7 +17,7 @@ func zzC15PageParts(fmv, bodyv int, hasTitle bool) string {
 		fm += "title: t" + strconv.Itoa(fmv) + "\n"
 	}
 	fm += "layout: wrap\n---\n"
-	return fm + "<p>{{ title }} body" + strconv.Itoa(bodyv) + "</p><template include=\"c.vuego\"></template>"
+	return fm + "<p>{{ title }} body" + strconv.Itoa(bodyv) + "</p><s style=\"color:red\" v-show=\"vis\" v-text=\"msg\"></s><template include=\"c.vuego\"></template>"
 }
 func zzC15Layout(v int) string {
 	return "---\nlk: l" + strconv.Itoa(v) + "\n---\n<main class=\"L" + strconv.Itoa(v) + "\"><span v-html=\"content\"></span>{{ lk }}</main>"
@@ -38,9 +38,11 @@ func VerifC15_History() {
 	fsys.mtime["layouts/wrap.vuego"] = 2
 	fsys.mtime["c.vuego"] = 2
 	long := NewFS(fsys)
+	// the request data differs from render to render; the files decide the rest
+	vis := zzBool("vis")
 	render := func(t Template) (string, bool) {
 		w := &zzWriter{limit: 1 << 20}
-		err := t.RenderFile(contextBackground(), w, "page.vuego")
+		err := t.New().Fill(map[string]any{"vis": vis, "msg": "M"}).RenderFile(contextBackground(), w, "page.vuego")
 		return string(w.got), err != nil
 	}
 	out0, failed0 := render(long) // warm the cache
@@ -49,7 +51,8 @@ func VerifC15_History() {
 	fmv, bodyv := 0, 0
 	for step := 0; step < L; step++ {
 		version++
-		switch zzChoice("op", 5) {
+		switch zzChoice("op", 6) {
+		case 5: // nothing changes on disk
 		case 0, 1: // edit the page / the layout with an arbitrary new modification time
 			name := "page.vuego"
 			// what the edit touches: everything, the front-matter only, the body only, or it removes the title
@@ -86,6 +89,7 @@ func VerifC15_History() {
 		case 4: // edit the component (not cached)
 			fsys.files["c.vuego"] = zzC15Comp(version)
 		}
+		vis = zzBool("vis")
 		got, gotFailed := render(long)
 		want, wantFailed := render(NewFS(fsys))
 		zzNote("want", want)
